@@ -150,6 +150,13 @@ func (c *config) targets(fast bool) []target {
 		if p.Fast != fast {
 			continue
 		}
+		if p.Group == "import-dep-enum" && p.Flavour == "gogo" {
+			// protobuf-go's legacy wrapper, which the bridge uses to reflect on gogo structs, cannot load a gogo message
+			// with an enum field whose type comes from another gogo package (the dependency is only in gogo's
+			// registry; the placeholder enum has no values). Such packages are exercised by C16 (compile) and by C18's
+			// reflection-free case only.
+			continue
+		}
 		for _, md := range p.Msgs {
 			i++
 			if fast {
